@@ -4,10 +4,11 @@ package main
 
 import (
 	"bytes"
-	"os"
 	"fmt"
+	"os"
 	"sort"
 	"strings"
+	"time"
 
 	"github.com/valyala/fasthttp"
 )
@@ -26,6 +27,19 @@ type c11Req struct {
 	malformed           bool
 	expect              bool
 	special             string // "", "te" (TimeoutError), "hj" (hijack), "close"
+	conf                string // per-request RequestConfig asked through HeaderReceived: "rt=MS;wt=MS;mb=N" (X-Req-Conf header)
+	pauseMs             int    // the client waits this long before sending the request
+}
+
+func (q c11Req) confInt(key string) int {
+	for _, kv := range strings.Split(q.conf, ";") {
+		if k, v, ok := strings.Cut(kv, "="); ok && k == key {
+			n := 0
+			fmt.Sscan(v, &n)
+			return n
+		}
+	}
+	return 0
 }
 
 func (q c11Req) uri() string {
@@ -93,6 +107,10 @@ func decodeC11(a [][]byte) (cfg connCfg, conns [][]c11Req) {
 		}
 		f := strings.Split(s, "\x1f")
 		q := c11Req{method: f[0], path: f[1], query: f[2], body: f[5], form: f[6] == "1", malformed: f[7] == "1", expect: f[8] == "1", special: f[9]}
+		if len(f) > 11 {
+			q.conf = f[10]
+			fmt.Sscan(f[11], &q.pauseMs)
+		}
 		for _, h := range strings.Split(f[3], "\x1e") {
 			if k, v, ok := strings.Cut(h, "="); ok {
 				q.headers = append(q.headers, [2]string{k, v})
@@ -102,6 +120,9 @@ func decodeC11(a [][]byte) (cfg connCfg, conns [][]c11Req) {
 			if k, v, ok := strings.Cut(h, "="); ok {
 				q.cookies = append(q.cookies, [2]string{k, v})
 			}
+		}
+		if q.conf != "" {
+			q.headers = append(q.headers, [2]string{"X-Req-Conf", q.conf})
 		}
 		cur = append(cur, q)
 	}
@@ -113,7 +134,7 @@ func init() {
 	Register(&Prop{
 		ID: "C11", NoShrink: true,
 		Rule: "histories of 1..3 connections x 1..4 requests served by one Server (shared ctx pool): structured requests (method, path, query args, custom headers, cookies, form/plain bodies), " +
-			"interleaved with malformed heads, rejected expectations (with and without a declared body), TimeoutError, hijacks, handler-set close, streamed bodies; the handler snapshots method/URI/headers/cookies/body/query+post args/user values/default response " +
+			"interleaved with malformed heads, rejected expectations (with and without a declared body), TimeoutError, hijacks, handler-set close, streamed bodies, per-request RequestConfig through HeaderReceived (own body limit, read and write deadlines, with later requests arriving after the deadline); the handler snapshots method/URI/headers/cookies/body/query+post args/user values/default response " +
 			"and then dirties user values, response and request; non-trivial = at least two dispatches in the history; distinct = distinct input",
 		Parallel: true,
 		Build: func(kind string, a [][]byte) *Case {
@@ -185,9 +206,11 @@ func init() {
 				nDispBefore := len(obs)
 				var stream []byte
 				var perReq [][]byte
+				cs.pauses = nil
 				for _, q := range conn {
 					stream = append(stream, q.wire()...)
 					perReq = append(perReq, q.wire())
+					cs.pauses = append(cs.pauses, time.Duration(q.pauseMs)*time.Millisecond)
 				}
 				// each request arrives in its own read, so nothing of a later request sits in the server's buffer early
 				res := cs.run(perReq)
@@ -200,10 +223,15 @@ func init() {
 				// the connection was kept and every later request must be dispatched as itself.
 				nonDispatchResponses := 0
 				responsesSoFar := 0
+				var dispReqs []c11Req // the requests of this connection that must be dispatched, in order
 				for i, q := range conn {
 					rejected := q.expect && (cfg.Continue == "reject" || cfg.Continue == "expect417")
 					if q.malformed {
 						nonDispatchResponses++ // the 400; nothing is dispatched for this and later requests
+						break
+					}
+					if mb := q.confInt("mb"); cfg.HeaderRecv && mb > 0 && len(q.body) > mb {
+						nonDispatchResponses++ // over ITS OWN limit: error response, nothing dispatched for this and later requests
 						break
 					}
 					responsesSoFar++
@@ -215,6 +243,7 @@ func init() {
 						break
 					}
 					expected = append(expected, expectOf(q))
+					dispReqs = append(dispReqs, q)
 					if q.special == "hj" || q.special == "close" || (cfg.MaxReqs > 0 && i+1 >= cfg.MaxReqs) {
 						break
 					}
@@ -223,6 +252,24 @@ func init() {
 				for _, q := range conn {
 					if q.special == "hj" {
 						hijacked = true
+					}
+				}
+				if cfg.HeaderRecv && respNote == "" {
+					// the write deadline in force when a response is written is the one its own request asked for
+					owner := -1
+					for _, e := range res.Trace.Events {
+						switch e.Kind {
+						case "dispatch":
+							owner = e.N
+						case "write":
+							if owner >= 0 {
+								want := owner < len(dispReqs) && dispReqs[owner].confInt("wt") > 0
+								if (e.S == "wdl") != want {
+									respNote = fmt.Sprintf("connection %q: the response to dispatch #%d (%s) was written with write deadline set=%v, its own request asked for one=%v", stream, owner, res.Dispatches[owner].URI, e.S == "wdl", want)
+								}
+								owner = -1
+							}
+						}
 					}
 				}
 				if perr == nil && !hijacked && len(codes) != (len(obs)-nDispBefore)+nonDispatchResponses && respNote == "" {
@@ -275,7 +322,7 @@ func init() {
 			if tier == "thorough" {
 				n = 60000
 			}
-			cfgs := []string{"", "", "rm=1", "st=1", "cont=reject", "cont=expect417", "cont=accept", "dn=0", "mr=2"}
+			cfgs := []string{"", "", "rm=1", "st=1", "cont=reject", "cont=expect417", "cont=accept", "dn=0", "mr=2", "hrc=1", "hrc=1,rm=1"}
 			for i := 0; i < n; i++ {
 				cfg := cfgs[r.Intn(len(cfgs))]
 				args := [][]byte{B(cfg)}
@@ -329,7 +376,28 @@ func init() {
 						if strings.HasPrefix(cfg, "cont=") && body == "" && r.Chance(20) {
 							expect = "1" // an expectation on a request that declares an empty body (Content-Length: 0 / none)
 						}
-						f := []string{method, fmt.Sprintf("/p%d", r.Intn(5)), strings.Join(qs, "&"), strings.Join(hs, "\x1e"), strings.Join(cks, "\x1e"), body, form, malformed, expect, special}
+						conf, pause := "", "0"
+						if strings.HasPrefix(cfg, "hrc=1") {
+							// a request may ask for its own limits; a later one must not inherit them
+							if r.Chance(45) {
+								var cf []string
+								if r.Chance(40) {
+									cf = append(cf, fmt.Sprintf("mb=%d", []int{4, 8, 12, 1000}[r.Intn(4)]))
+								}
+								if r.Chance(40) {
+									cf = append(cf, "wt=5000")
+								}
+								if r.Chance(40) {
+									cf = append(cf, "rt=3")
+								}
+								conf = strings.Join(cf, ";")
+							}
+							if j > 0 && r.Chance(50) {
+								pause = "25" // arrives well after a 3 ms read deadline of an earlier request would have expired
+							}
+						}
+						// the path carries the position so that a dispatch can be attributed to its request
+						f := []string{method, fmt.Sprintf("/p%d", r.Intn(5)), strings.Join(qs, "&"), strings.Join(hs, "\x1e"), strings.Join(cks, "\x1e"), body, form, malformed, expect, special, conf, pause}
 						args = append(args, B(strings.Join(f, "\x1f")))
 					}
 				}
